@@ -266,8 +266,9 @@ def add_units_ranges(rng, desc):
             if rng.random() < 0.3:
                 p["unit"] = rng.choice(["V", "A", "rpm", "deg C", "m/s"])
             if rng.random() < 0.25:
-                lo = rng.choice([0.0, -1.5, 10.0, -100.25])
-                p["range"] = (lo, lo + rng.choice([1.0, 2.5, 1000.0]))
+                # dyadic and non-dyadic bounds, and whole numbers beyond 2^24 and 2^32: values a narrower float would round
+                lo = rng.choice([0.0, -1.5, 10.0, -100.25, 0.1, -0.3, 16777217.0])
+                p["range"] = (lo, lo + rng.choice([1.0, 2.5, 1000.0, 99.8, 4294967295.0, 9007199254740991.0]))
             f["params"] = p
     return desc
 
